@@ -83,6 +83,12 @@ def slowGo : Nat → Nat → Nat → Bytes → Out (Nat × Bytes)
 /-- `decode_varint_slow`. -/
 def varintSlow (bs : Bytes) : Out (Nat × Bytes) := slowGo 0 0 (min 10 bs.length) bs
 
+/-- the slice path as `decode_varint` uses it: `decode_varint_slice(bytes)?` then `buf.advance(advance)`. -/
+def varintViaSlice (bs : Bytes) : Out (Nat × Bytes) :=
+  match varintSlice bs with
+  | .ok (v, adv) => if adv ≤ bs.length then .ok (v, bs.drop adv) else .panic "Buf::advance past the end"
+  | .err k => .err k | .panic s => .panic s | .fuel => .fuel
+
 /-- `decode_varint`: one-byte fast path; slice path when more than 10 bytes remain or the
 last byte terminates a varint; slow path otherwise. -/
 def decodeVarint (bs : Bytes) : Out (Nat × Bytes) :=
@@ -90,10 +96,7 @@ def decodeVarint (bs : Bytes) : Out (Nat × Bytes) :=
   | [] => .err .invalid
   | b :: rest =>
     if b.toNat < 128 then .ok (b.toNat, rest)
-    else if decide (bs.length > 10) || lastLt128 bs then
-      match varintSlice bs with
-      | .ok (v, adv) => if adv ≤ bs.length then .ok (v, bs.drop adv) else .panic "Buf::advance past the end"
-      | .err k => .err k | .panic s => .panic s | .fuel => .fuel
+    else if decide (bs.length > 10) || lastLt128 bs then varintViaSlice bs
     else varintSlow bs
 
 /-- reference reading of a varint: gather at most ten bytes up to the first one without the
